@@ -6,7 +6,8 @@
    field, encoded size at most 1400 bytes; Props/C05 turns that into "the library's own reader
    returns the same value without a warning". *)
 From LibTw2 Require Import Base.Res Model.PacketTypes Model.ConnCore Model.Conn6 Model.Conn7
-  Proofs.ConnCoreInv Proofs.Conn6Inv Proofs.Conn7Inv.
+  Proofs.ConnCoreInv Proofs.Conn6Inv Proofs.Conn7Inv Proofs.ConnBytes6 Model.Packet6 Model.PacketInst
+  Proofs.Packet6Chunks.
 From Coq Require Import ZArith List.
 Open Scope Z_scope.
 
@@ -27,6 +28,28 @@ Proof. exact step_ok6. Qed.
 Theorem C04_step7 : forall c e o, conn_ok7 c -> valid_op7 c e o ->
   exists out, step7 c e o = Ok out /\ conn_ok7 (out7_conn out) /\ Forall (dgram_ok params7) (out7_sent out).
 Proof. exact step7_ok. Qed.
+
+(* ... and at the byte level (0.6): every datagram emitted along any valid history, once its payloads
+   are byte strings, is written by the library's own Packet::write (Model/Packet6.v, tied to
+   protocol.rs by property C05/C06's correspondence) into at most 1400 bytes which Packet::read --
+   told the true token mode -- returns as the same value with NO warning, and whose chunks the chunk
+   iterator yields bit-identical, in order, with the announced count and no warning *)
+Theorem C04_bytes6 : forall ls e c' e' ds d p, valid_run6 conn6_new e ls ->
+  run6 conn6_new e ls = Ok (c', e', ds) -> In d ds -> dgram_bytes_ok d = true -> encode6 d = Some p ->
+  exists out,
+    write6_tw p 1400 = Ok out /\ (length out <= 1400)%nat
+    /\ (exists views, read6_tw out (true_hint6 p) 1400 = ([], Ok (p, views)))
+    /\ match d with
+       | DChunks _ _ _ n cs =>
+         exists cvs it', chunks_iter_all6 (flat_map chunk_enc6 cs) n = Ok (cvs, [], it') /\ map fst cvs = cs
+       | _ => True
+       end.
+Proof.
+  intros ls e c' e' ds d p Hv Hr Hin Hb He.
+  destruct (run_ok6 ls conn6_new e conn6_new_ok Hv) as [c2 [e2 [ds2 [H [_ Hds]]]]].
+  rewrite Hr in H. injection H as <- <- <-. rewrite Forall_forall in Hds.
+  exact (emitted_reads_back6 d p (Hds d Hin) Hb He).
+Qed.
 
 (* a payload that cannot be carried is refused and the connection is untouched *)
 Theorem C04_refusal6 : forall c e on data vital,
@@ -54,6 +77,7 @@ Proof. vm_compute. reflexivity. Qed.
 
 Print Assumptions C04_all_histories6.
 Print Assumptions C04_all_histories7.
+Print Assumptions C04_bytes6.
 Print Assumptions C04_step6.
 Print Assumptions C04_step7.
 Print Assumptions C04_refusal6.
